@@ -184,3 +184,10 @@ pub fn num_token<T: NumToken>(v: T) -> String {
 pub fn terminal_histogram_arm(o: crate::HistogramOpts) -> crate::Result<crate::HistogramOpts> {
     Ok(o)
 }
+
+/// Contract stand-in for the TERMINAL (`@of_type`) arm of `register_counter!`, shared by
+/// `register_int_counter!`: hands back the metric type identifier and the options that reached it.
+/// The terminal arm itself (`$TYPE::with_opts` + `register`) is not decided.
+pub fn terminal_counter_arm(ty: &'static str, o: crate::Opts) -> crate::Result<(&'static str, crate::Opts)> {
+    Ok((ty, o))
+}
